@@ -99,7 +99,7 @@ PROP = {
     "level_text": ("Exploration: every run executes two Clipper64 objects (one into Paths64, one into PolyTree64) on tens of "
                    "thousands (quick) to over a million (thorough) generated scenes - general-position scenes biased to nesting "
                    "(concentric rings to depth 8, holes with islands, many holes per outer, holes merged or cut by crossing "
-                   "polygons) and degenerate rectilinear scenes on lattices scaled by >= 2 (rings assembled from abutting bars, "
+                   "polygons), chains of 130-700 nested contours (general position and rectilinear, 60 / 1200 scenes per run: tree depth, Level() and owner walks past 2^8 and 2^9) and degenerate rectilinear scenes on lattices scaled by >= 2 (rings assembled from abutting bars, "
                    "slabs with touching holes, random walks) - under all clip types, fill rules, ReverseSolution and "
                    "PreserveCollinear, and on a third of them also two ClipperD objects (precision 0..3) plus a Clipper64 on the "
                    "scaled input. Each tree is compared with the paths solution (canonical equality, open paths, area) and "
